@@ -377,8 +377,16 @@ _c09 = [_views_h(v, 2, 1, Q if v != 3 else T, mem_gb=(8 if v != 3 else 24)) for 
     # operator outputs are well formed: the C08 harnesses assert spec_wf on every output; two of them are re-run here
     _bmoc_h('C09', 0, 1, 2, 2, 2, 2, Q), _bmoc_h('C09', 0, 0, 1, 0, 1, 1, Q), _bmoc_h('C09', 0, 3, 1, 1, 1, 1, Q),
 ]
+# whole-sky cone outputs are well formed (12 full base cells): same harness as C06, registered here for the "coverage query" producers
+for (_d, _dl) in ((3, 0), (2, 2)):
+    _c09.append(H('c09_allsky_d%d_dd%d' % (_d, _dl), 'k_c06_allsky(%d, %d);' % (_d, _dl), tiers=Q, timeout=1200, mem_gb=8, unwind=14, mod='verif_c09n',
+                  stubs=[('f64::sin', 'crate::verif_common::sin_stub'), ('f64::cos', 'crate::verif_common::cos_stub'), ('f64::asin', 'crate::verif_common::asin_stub'),
+                         ('f64::acos', 'crate::verif_common::acos_stub'), ('crate::nested::bmoc::BMOCBuilderUnsafe::pack', 'crate::nested::bmoc::verif_c09::stub_pack_identity')],
+                  inputs=[('lon', 'f64'), ('lat', 'f64')], replay='c06_allsky', replay_const={'depth': _d, 'delta': _dl}, covers=['NaN centre'],
+                  domain='whole-sky cone output, depth %d, delta_depth %d: radius in {pi, next double, 4, 1e300, +inf}, every double centre' % (_d, _dl)))
 PROPS['C09'] = dict(
-    inject=[dict(host='src/nested/bmoc.rs', mod='verif_c09', parts=['props/c07.rs', 'kani/c07.rs', 'props/c09.rs', 'kani/c09.rs'])],
+    inject=[dict(host='src/nested/bmoc.rs', mod='verif_c09', parts=['props/c07.rs', 'kani/c07.rs', 'props/c09.rs', 'kani/c09.rs']),
+            dict(host='src/nested/mod.rs', mod='verif_c09n', parts=['props/c06.rs', 'kani/c06.rs'])],
     harnesses=_c09,
     functions=['BMOC::{into_iter,flat_iter,flat_iter_cell,to_flat_array,deep_size,to_ranges,from_raw_value}', 'BMOCFlatIter', 'BMOCFlatIterCell',
                'BMOCIter', 'Cell::new', 'build_raw_value', 'to_range'] + _BMOC_FUNCS[:4],
